@@ -113,6 +113,87 @@ def loadAssignFirst (s : Life) (c : LoadCfg) : Life :=
 /-- the state after a history of loads -/
 def afterHistory (hist : List LoadCfg) : Life := hist.foldl load Life.init
 
+
+/-! ### loads that are REJECTED LATE
+
+`caddy.go run`: `provisionContext` replaces the local admin endpoint FIRST (`replaceLocalAdminServer`),
+then provisions storage and apps — which may fail —, then `provisionAdminRouters`, app start, and
+`finishSettingUp` → `manageIdentity`, `replaceRemoteAdminServer` — which may fail too (an access
+list entry whose public key cannot be decoded; its error return comes after the `defer` that stops
+the previous remote server and before `remoteAdminServer` is assigned).  None of these error paths
+puts the previous local endpoint back. -/
+
+/-- where a load is rejected after the local admin endpoint was replaced -/
+inductive Fail where
+  | none       -- not at all (the load is accepted unless its local listener cannot be bound)
+  | prov       -- `provisionContext`: an app cannot be loaded / provisioned (remote endpoint not reached)
+  | key        -- `replaceRemoteAdminServer`: a listed public key cannot be decoded
+deriving DecidableEq, Repr
+
+/-- one call of `caddy.Load`: the admin part of the config, and how the rest of it fares -/
+structure Attempt where
+  cfg : LoadCfg
+  fail : Fail
+deriving DecidableEq, Repr
+
+/-- `replaceRemoteAdminServer` returning from inside the key loop: the deferred stop of the previous
+    server runs (it has no `err == nil` condition), no new server is created, the variable is not
+    assigned -/
+def replaceRemoteKeyErr (s : Life) : Life :=
+  { s with liveRemote := stopR s.liveRemote s.remoteVar }
+
+/-- one `caddy.Load`, accepted or rejected -/
+def attempt (s : Life) (a : Attempt) : Life :=
+  if a.cfg.loc = .blocked then s
+  else match a.fail with
+    | .none => replaceRemote (replaceLocal s a.cfg) a.cfg
+    | .prov => replaceLocal s a.cfg
+    | .key => replaceRemoteKeyErr (replaceLocal s a.cfg)
+
+/-- is the load accepted (does its config become the running one)? -/
+def Attempt.accepted (a : Attempt) : Bool := a.cfg.loc != .blocked && a.fail == .none
+
+/-- the endpoint a config asks for: address and origin policy (none: disabled / cannot be bound) -/
+def LocalCfg.endpoint : LocalCfg → Option (Nat × Bool)
+  | .absent => some (defaultLocalAddr, false)
+  | .disabled => none
+  | .listen a t => some (a, t)
+  | .blocked => none
+
+def afterAttempts (hist : List Attempt) : Life := hist.foldl attempt Life.init
+
+/-- the running config: that of the last ACCEPTED load -/
+def runningStep (cur : Option LoadCfg) (a : Attempt) : Option LoadCfg :=
+  if a.accepted then some a.cfg else cur
+
+def runningConfig (hist : List Attempt) : Option LoadCfg := hist.foldl runningStep none
+
+/-- what the property says of the local endpoint when "allowed origin" is read as "allowed by the
+    RUNNING config": every local admin server that listens is the endpoint the running config asks
+    for, with its origin policy -/
+def localAsRunning (hist : List Attempt) : Bool :=
+  (afterAttempts hist).liveLocal.all (fun srv =>
+    match runningConfig hist with
+    | some c => c.loc.endpoint == some (srv.addr, srv.tight)
+    | none => false)
+
+/-- the candidate repair (`.run/fixes/C13-rejected-load-admin-endpoint.patch`): a load that is rejected
+    after the admin endpoints were touched re-runs both replace functions with the running config
+    (`none`: nothing was ever accepted — the endpoints are stopped) -/
+def restore (s : Life) (cur : Option LoadCfg) : Life :=
+  match cur with
+  | some c => replaceRemote (replaceLocal s c) c
+  | none => { s with liveLocal := stopL s.liveLocal s.localVar, liveRemote := stopR s.liveRemote s.remoteVar }
+
+def attemptFixed (st : Life × Option LoadCfg) (a : Attempt) : Life × Option LoadCfg :=
+  if a.cfg.loc = .blocked then st
+  else match a.fail with
+    | .none => (replaceRemote (replaceLocal st.1 a.cfg) a.cfg, some a.cfg)
+    | .prov => (restore (replaceLocal st.1 a.cfg) st.2, st.2)
+    | .key => (restore (replaceRemoteKeyErr (replaceLocal st.1 a.cfg)) st.2, st.2)
+
+def afterAttemptsFixed (hist : List Attempt) : Life × Option LoadCfg := hist.foldl attemptFixed (Life.init, none)
+
 /-- the variant with the two guards of `replaceRemoteAdminServer` merged in front of the `defer`
     (a plausible tidy-up): switching remote administration off returns before the stop is
     registered.  Kept for `remote_merged_guard_fails`. -/
